@@ -266,6 +266,21 @@ def ctor(cfg, crate, rep):
                     uses[d].add(name)
             if n["k"] == "Struct" and n.get("adt") in uses:
                 uses[n["adt"]].add(name)
+    # a widening conversion `impl From<Narrow> for Wide` is a validated construction too: the text was validated against
+    # an alphabet contained in the target's, and is handed over unchanged (PrintableString < IA5String, TeletexString)
+    WIDENS = {("string::PrintableString", "string::Ia5String"), ("string::PrintableString", "string::TeletexString")}
+    import re as _re
+    for k, fns in uses.items():
+        for f_ in sorted(fns - allowed[k]):
+            m_ = _re.match(r"^<(string::\w+) as std::convert::From<(string::\w+)>>::from$", f_)
+            if not m_ or m_.group(1) != k or (m_.group(2), k) not in WIDENS:
+                continue
+            v_ = core(Interp(crate).run_fn(f_)["value"])
+            ps_ = [p_.get("name") for p_ in crate.bodies[f_].get("params", []) if p_.get("k") == "Binding"]
+            if isinstance(v_, StructV) and len(v_.fields) == 1 and len(ps_) == 1 and core(list(v_.fields.values())[0]).r() == ps_[0] + ".0" \
+                    and not [r for r in roots(list(v_.fields.values())[0]) if r.startswith(("op:", "call:"))]:
+                fns = fns - {f_}
+        uses[k] = fns
     for k, fns in uses.items():
         rep.ob("C13.ctor", "%s|%s|constructed-only-when-validated" % (cfg, k), fns == allowed[k], "the wrapper is constructed only inside its validating constructor", expected=sorted(allowed[k]), found=sorted(fns))
         adt = crate.adts.get(k)
